@@ -47,11 +47,11 @@ type SynthEv struct {
 
 // SynthCol is one synthetic column.
 type SynthCol struct {
-	Name    string
-	Type    int
-	Absent  bool
-	Nil     bool
-	Data    []byte
+	Name   string
+	Type   int
+	Absent bool
+	Nil    bool
+	Data   []byte
 }
 
 func (s *SynthTx) build() *gobinlog.Transaction {
